@@ -500,9 +500,14 @@ object_t* load_object (const char *mudlib_filename, const char *pre_text) {
     {
       object_t *inh_obj;
       char inhbuf[MAX_OBJECT_NAME_SIZE];
+      int inh_name_ok;
 
-      if (!strip_name (inherit_file, inhbuf, sizeof inhbuf))
-        strcpy (inhbuf, inherit_file);
+      /* the inherit string is as long as the source makes it */
+      if (!(inh_name_ok = strip_name (inherit_file, inhbuf, sizeof inhbuf)))
+        {
+          strncpy (inhbuf, inherit_file, sizeof inhbuf - 1);
+          inhbuf[sizeof inhbuf - 1] = 0;
+        }
 
       FREE (inherit_file);
       inherit_file = 0;
@@ -512,6 +517,8 @@ object_t* load_object (const char *mudlib_filename, const char *pre_text) {
           free_prog (prog, 1);
           prog = 0;
         }
+      if (!inh_name_ok)
+        error ("*Filenames with consecutive /'s in them aren't allowed (%s).", inhbuf);
       if (strcmp (inhbuf, name) == 0)
         {
           error ("*Illegal to inherit self.");
